@@ -19,9 +19,13 @@ TECHNIQUE = 'bounded-exhaustive words + exhaustive sweep of every known macro/en
 SPECS = {'quick': dict(R=4, L=3, A=None), 'thorough': dict(R=5, L=4, A=None)}
 
 MACRO_FRAMES = ['\\M', '\\M{}', '\\M{a}', '\\M[a]{b}', '\\M*', '\\M{a}{b}', '\\M a', '\\M}', '\\textbf\\M',
-                '\\frac\\M\\M', '\\hat\\M', '\\sqrt[\\M]{\\M}', '$\\M$', '{\\M', '\\M{a}{b}{c}{d}', '\\M[', '\\M{']
+                '\\frac\\M\\M', '\\hat\\M', '\\sqrt[\\M]{\\M}', '$\\M$', '{\\M', '\\M{a}{b}{c}{d}', '\\M[', '\\M{',
+                '\\M[\\M[a]{b}]{c}', '\\M[\\sqrt[3]{n}]{y}', '\\sqrt[\\M[3]{n}]{y}', '\\item[\\M[a]{b}]']
 ENV_FRAMES = ['\\begin{E}\\end{E}', '\\begin{E}a\\end{E}', '\\begin{E}{c}a&b\\\\c\\end{E}', '\\begin{E}[x]a\\end{E}',
-              '\\begin{E}\\begin{E}a\\end{E}\\end{E}', '\\begin{E}a', '\\begin{E}{c}\\end{E}', '\\begin{E}{c}&\\\\\\end{E}']
+              '\\begin{E}\\begin{E}a\\end{E}\\end{E}', '\\begin{E}a', '\\begin{E}{c}\\end{E}', '\\begin{E}{c}&\\\\\\end{E}',
+              # ragged rows (first row shortest / longest / empty), also inside a formula; optional argument nested in the optional argument
+              '\\begin{E}a\\\\b&c\\end{E}', '\\begin{E}\\\\a&b\\\\\\end{E}', '\\begin{E}a&b\\\\c&d&e\\\\f\\end{E}',
+              '$\\begin{E}a\\\\b&c&d\\end{E}$', '\\begin{E}[\\sqrt[3]{n}]a\\end{E}', '\\begin{E}[\\begin{E}[x]a\\end{E}]b\\end{E}']
 
 OPTS = [dict(math_mode=m, strict_latex_spaces=s, keep_comments=kc, keep_braced_groups=kb, fill_text=ft)
         for m in ('text', 'with-delimiters', 'verbatim', 'remove')
